@@ -83,7 +83,10 @@ Print Assumptions c20_fresh_ids.
 
 (* ---------------- the known-finding classes: refutations on the unchanged tree ---------------- *)
 
-(* every listed hole is a live prefix of the regenerated table that does NOT survive *)
+(* every listed hole is a live prefix of the regenerated table that does NOT survive, and every
+   listed id counter is restored in the shape in which the hole was found (maximum / last / count /
+   absent: [known_counter_shapes]) - a counter restored as a count where a maximum is listed is in
+   no class *)
 Theorem c20_known_holes_refuted : forallb hole_is_hole known_holes = true.
 Proof. exact holes_are_holes. Qed.
 Print Assumptions c20_known_holes_refuted.
@@ -135,6 +138,21 @@ Theorem c20_maxid_refuted :
                      restored_value (RMax [16]) orig items <> Some orig.
 Proof. repeat split; try (vm_compute; reflexivity). apply max_restore_reissues. Qed.
 Print Assumptions c20_maxid_refuted.
+
+(* the shape of a counter hole matters: lend InitGenesis takes the lend id from the LAST imported
+   lend (ascending ids: the maximum); were it to COUNT the imported lends instead, with lends {2, 3}
+   alive the next lend would get id 3 again - and (lend, 22) would no longer be in any class *)
+Example c20_counter_shape_sensitive :
+  shape_code (counter_restore the_table "lend" 22) = 2 /\ kf_C20_any "lend" 22 = true /\
+  shape_code (counter_restore the_table "liquidation" 1) = 3 /\ kf_C20_class "liquidation" 1 = 4 /\
+  (exists items, match restored_value (RCount [21]) 3 items with
+                 | Some v => In (next_id v) (ids items) | None => False end) /\
+  (forall items : entries, ~ In (next_id (zmax_list (ids items))) (ids items)).
+Proof.
+  repeat split; try (vm_compute; reflexivity).
+  - apply count_restore_collides.
+  - apply max_restore_fresh.
+Qed.
 
 (* ---------------- decided: not a defect ---------------- *)
 (* former class 13: esm InitGenesis imports the kill switches through SetKillSwitchData, which
